@@ -158,6 +158,15 @@ def build_expected(moltypes, molecules, blocks):
 
 
 # ------------------------------------------------------------------ residue specs / start
+def renumber(moltypes, r0):
+    """residues numbered from r0 instead of 1 (after -split polyply itself numbers from 0)"""
+    for mt in moltypes:
+        for a in mt['atoms']:
+            a['resid'] += r0 - 1
+        mt['r0'] = r0
+    return moltypes
+
+
 def gen_spec(rng, moltypes, molecules):
     by = {mt['name']: mt for mt in moltypes}
     inst = [n for n, c in molecules for _ in range(c)]
@@ -168,11 +177,12 @@ def gen_spec(rng, moltypes, molecules):
     use_name, use_idx = rng.choice([(True, True), (True, False), (False, True)])
     use_res = rng.random() < 0.8
     use_resid = use_res and rng.random() < 0.7
+    r0 = mt.get('r0', 1)
     spec = (name if use_name else '') + (f'#{idx}' if use_idx else '')
     if use_res:
-        spec += '-' + mt['resnames'][r] + (f'#{r + 1}' if use_resid else '')
+        spec += '-' + mt['resnames'][r] + (f'#{r + r0}' if use_resid else '')
     return {'spec': spec, 'molname': name if use_name else None, 'molidx': idx if use_idx else None,
-            'resname': mt['resnames'][r] if use_res else None, 'resid': r + 1 if use_resid else None}
+            'resname': mt['resnames'][r] if use_res else None, 'resid': r + r0 if use_resid else None}
 
 
 def spec_cases(ctx, wd, n):
@@ -180,8 +190,10 @@ def spec_cases(ctx, wd, n):
     from polyply.src.gen_coords import find_starting_node_from_spec
     rng = ctx.rng
     exprs, keep = [], []
+    from polyply.src.annotate_ligands import _find_nodes
     for _ in range(n):
         moltypes, molecules = gen_system(rng)
+        renumber(moltypes, rng.choice([1, 1, 0, 3]))
         sp = gen_spec(rng, moltypes, molecules)
         top = load_topology(wd, moltypes, molecules)
         parsed = parse_residue_spec(sp['spec'])
@@ -203,7 +215,12 @@ def spec_cases(ctx, wd, n):
         ok = True
         for i in sel:
             mt = by[inst[i]]
-            match = [k for k in range(mt['nres']) if (sp['resname'] is None or mt['resnames'][k] == sp['resname']) and (sp['resid'] is None or k + 1 == sp['resid'])]
+            match = [k for k in range(mt['nres']) if (sp['resname'] is None or mt['resnames'][k] == sp['resname']) and (sp['resid'] is None or k + mt['r0'] == sp['resid'])]
+            # the selector behind -lig and -start: every residue whose written fields are equal, no other
+            found = sorted(int(x) for x in _find_nodes(top.molecules[i], parsed))
+            if found != match:
+                ctx.violation('spec', f"specification {sp['spec']!r} selects residues {found} of molecule {i}, the written fields name {match}",
+                              {'spec_case': sp, 'moltypes': moltypes, 'molecules': molecules})
             if not match:
                 ok = False
             else:
@@ -214,7 +231,7 @@ def spec_cases(ctx, wd, n):
             i0 = sel[0]
             mt = by[inst[i0]]
             exprs.append(f"(spec_case {lit(sp['spec'])}, start_case {lit_opt(sp['resname'])} {lit_optz(sp['resid'])} "
-                         f"[{'; '.join(f'({k + 1}%Z, {lit(mt['resnames'][k])})' for k in range(mt['nres']))}])")
+                         f"[{'; '.join(f'({k + mt['r0']}%Z, {lit(mt['resnames'][k])})' for k in range(mt['nres']))}])")
             keep.append((sp, exp[i0]))
     res = core.coq_eval_cases(ctx, 'spec', PRELUDE, exprs, chunk=100)
     mism = 0
